@@ -759,6 +759,8 @@ func faultHistory(caseID string, seed int64) {
 				pick := g.Intn(6)
 				if fullFaults == forceAllAt {
 					pick = 5
+				} else if fullFaults == (forceAllAt+1)%3 {
+					pick = 0 // every history stops its leader at least once
 				}
 				fullFaults++
 				switch pick {
